@@ -612,6 +612,8 @@ func (eng *Engine) verifyFunc(fn *ssa.Function, con *Contract, mode string) *VC 
 			if g, err := env.evalBool(c.E); err == nil {
 				vc.assert(sImp(rt.reach, g))
 				vc.assumptions["lemma instance (trusted) in "+name+": "+c.Text] = true
+			} else if os.Getenv("GOVC_DEBUG") != "" {
+				fmt.Fprintf(os.Stderr, "lemma %s at ret%d of %s not applicable: %v\n", c.Label, ri, name, err)
 			}
 		}
 		for _, d := range fr.deferredPre {
